@@ -221,6 +221,16 @@ def case_correction(col, p):
             col.violation('C18:make_low_pass_func:negative_entries', info, {'min': float(od.min())})
         if od.sum() > 1.0 + 1e-10:
             col.violation('C18:make_low_pass_func:more_sites_than_model', info, {'total': float(od.sum())})
+        if deep and thr < 1e-2 and all(F == 0 for F in Fx) and sum(np.unravel_index(j, shape)) > 0:
+            # simulated regime, deep coverage: every genotype is called correctly (a miscall needs 0 of 80 reads of an allele), so whatever the
+            # random subsets drawn, a site can only land on entries the plain projection reaches
+            proj = np.asarray(dadi.Spectrum(holder['data'].copy(), mask_corners=False).project(list(nsub)).data)
+            outside = (proj == 0) & (od > 1e-12)
+            if outside.any():
+                col.violation('C18:make_low_pass_func:simulated:sites_outside_projection_support', info,
+                              {'entries': [tuple(int(x) for x in ix) for ix in np.argwhere(outside)[:5]], 'mass': float(od[outside].sum())})
+            if abs(od.sum() - 1.0) > 1e-9:
+                col.violation('C18:make_low_pass_func:simulated:deep_coverage_loses_sites', info, {'total': float(od.sum())})
         if deep and thr >= 1e-2:
             proj = np.asarray(dadi.Spectrum(holder['data'].copy(), mask_corners=False).project(list(nsub)).data)
             # sites absent from every sequenced chromosome are never called
@@ -358,6 +368,8 @@ def run(ctx):
                     cases.append({'kind': 'correction', 'nseq': nseq, 'nsub': nsub, 'F': list(F), 'sim_threshold': thr, 'coverage': cname, 'seed': ctx.seed})
     for calls, nsub, rows, missing in ((3, 2, 2, 1), (3, 4, 2, 0), (4, 4, 2, 2)) + (((3, 2, 3, 0), (4, 6, 2, 1)) if not ctx.quick else ()):
         cases.append({'kind': 'subsample_env', 'calls': calls, 'nsub': nsub, 'rows': rows, 'missing': missing})
+    for nseq, nsub in (((6,), (4,)), ((4, 4), (2, 4)), ((8, 4), (4, 4)), ((4, 2), (2, 2)), ((4, 4, 2), (2, 2, 2))):
+        cases.append({'kind': 'correction', 'nseq': nseq, 'nsub': nsub, 'F': [0] * len(nseq), 'sim_threshold': 0, 'coverage': 'point80', 'seed': ctx.seed})
     for nseq, nsub in (((4,), (2,)), ((6,), (4,)), ((4, 2), (2, 2))):
         for pre in ('mix0_4', 'uniform0_10'):
             cases.append({'kind': 'correction', 'nseq': nseq, 'nsub': nsub, 'F': [0] * len(nseq), 'sim_threshold': 1e-2, 'coverage': 'point80', 'seed': ctx.seed,
